@@ -64,6 +64,7 @@ class TruthOracle(FOracle):
         self.first_push = {}
         self.recv = {}       # sink -> [(t, item, creation stamp at reception)]
         self.changes = {}
+        self.entered = []
         self.dead = False
 
     def start(self, f):
@@ -94,10 +95,17 @@ class TruthOracle(FOracle):
             nid = es["dst"]
             if self.kinds[nid] == "Sink":
                 self.recv.setdefault(nid, []).append((e.t, it, getattr(it, "timestamp_creation", None)))
+            else:
+                self.entered.append((e.t, it, nid))
 
     def after_kernel_event(self, f):
-        # node entry stamp is written right after the get, inside the same kernel step
-        pass
+        # the node entry stamp of the object a node has just taken is written right after the get, inside the same kernel step
+        for (t, it, nid) in self.entered:
+            te = getattr(it, "timestamp_node_entry", None)
+            if te is None or te != t:
+                self.v((self.kinds[nid], "timestamps", "node_entry"),
+                       "item %s entered %s at %s but timestamp_node_entry=%r after that kernel step" % (getattr(it, "id", it), nid, t, te))
+        self.entered = []
 
     def finish(self, f):
         if f.build_error or f.crashed or f.livelock or f.runaway:
